@@ -17,6 +17,7 @@ import (
 	"go/constant"
 	"go/token"
 	"go/types"
+	"reflect"
 	"runtime"
 	"sort"
 	"strings"
@@ -51,6 +52,7 @@ type pwPath struct {
 	seed      func(*pwPath, ssa.Value) (constant.Value, bool)
 	loadHook  func(*pwPath, *ssa.UnOp) (constant.Value, bool) // consulted when a load executes and no store on this path determines it
 	unknown   map[string]bool                                 // objects overwritten as a whole by a value that is not tracked
+	loadAt    map[ssa.Value]int                               // load -> number of events recorded when it (last) executed
 }
 
 // addrKey is a canonical key for the address of a field of a (resolved)
@@ -133,6 +135,110 @@ type pwFrame struct {
 	retBlock *ssa.BasicBlock
 	retIdx   int
 	depth    int
+	// sub: a second (third, ...) activation of a function on one path works on private copies of
+	// its instructions, so that the values of the activations stay apart (the two calls of one
+	// extracted helper with different arguments); maps the function's own values to the copies,
+	// its parameters and free variables to what they are bound to. nil for a first activation.
+	sub map[ssa.Value]ssa.Value
+}
+
+// pwOrigin: copy of an instruction -> the instruction of the program it was made from
+var pwOrigin sync.Map
+
+// origInstr returns the program's instruction for a per-activation copy (or ins itself).
+func origInstr(ins ssa.Instruction) ssa.Instruction {
+	if o, ok := pwOrigin.Load(ins); ok {
+		return o.(ssa.Instruction)
+	}
+	return ins
+}
+
+func origCall(c *ssa.Call) *ssa.Call { return origInstr(c).(*ssa.Call) }
+
+// origValue: the program's value for a per-activation copy (structural analyses of the value
+// graph -- induction variables, loop shapes -- are done on the program, not on the copies).
+func origValue(v ssa.Value) ssa.Value {
+	if ins, ok := v.(ssa.Instruction); ok {
+		if o, ok := origInstr(ins).(ssa.Value); ok {
+			return o
+		}
+	}
+	return v
+}
+
+// copyInstr makes a private copy of ins whose operands are replaced according to sub.
+func copyInstr(ins ssa.Instruction, sub map[ssa.Value]ssa.Value) ssa.Instruction {
+	rv := reflect.ValueOf(ins)
+	n := reflect.New(rv.Elem().Type())
+	n.Elem().Set(rv.Elem())
+	c := n.Interface().(ssa.Instruction)
+	switch x := c.(type) {
+	case *ssa.Call:
+		x.Call.Args = append([]ssa.Value(nil), x.Call.Args...)
+	case *ssa.Defer:
+		x.Call.Args = append([]ssa.Value(nil), x.Call.Args...)
+	case *ssa.Go:
+		x.Call.Args = append([]ssa.Value(nil), x.Call.Args...)
+	case *ssa.MakeClosure:
+		x.Bindings = append([]ssa.Value(nil), x.Bindings...)
+	case *ssa.Return:
+		x.Results = append([]ssa.Value(nil), x.Results...)
+	case *ssa.Phi:
+		x.Edges = append([]ssa.Value(nil), x.Edges...)
+	case *ssa.Select:
+		return ins // not copied (operands live in shared state records)
+	}
+	var buf [8]*ssa.Value
+	for _, op := range c.Operands(buf[:0]) {
+		if op == nil || *op == nil {
+			continue
+		}
+		if nv, ok := sub[*op]; ok {
+			*op = nv
+		}
+	}
+	pwOrigin.Store(c, origInstr(ins))
+	if v, ok := ins.(ssa.Value); ok {
+		cv := c.(ssa.Value)
+		// phis copied earlier in this activation that take this value on an edge now take the copy
+		for _, o := range sub {
+			if phi, ok := o.(*ssa.Phi); ok {
+				if _, isCopy := pwOrigin.Load(phi); isCopy {
+					for i, e := range phi.Edges {
+						if e == v || (sub[v] != nil && e == sub[v]) {
+							phi.Edges[i] = cv
+						}
+					}
+				}
+			}
+		}
+		sub[v] = cv
+	}
+	return c
+}
+
+func (fr *pwFrame) cloneChain() *pwFrame {
+	if fr == nil {
+		return nil
+	}
+	need := false
+	for f := fr; f != nil; f = f.parent {
+		if f.sub != nil {
+			need = true
+		}
+	}
+	if !need {
+		return fr
+	}
+	n := *fr
+	if fr.sub != nil {
+		n.sub = make(map[ssa.Value]ssa.Value, len(fr.sub))
+		for k, v := range fr.sub {
+			n.sub[k] = v
+		}
+	}
+	n.parent = fr.parent.cloneChain()
+	return &n
 }
 
 type pwState struct {
@@ -169,6 +275,10 @@ func (p *pwPath) clone() *pwPath {
 			q.revisited[k] = v
 		}
 	}
+	q.loadAt = make(map[ssa.Value]int, len(p.loadAt))
+	for k, v := range p.loadAt {
+		q.loadAt[k] = v
+	}
 	q.unknown = make(map[string]bool, len(p.unknown))
 	for k, v := range p.unknown {
 		q.unknown[k] = v
@@ -202,6 +312,7 @@ func (p *pwPath) clone() *pwPath {
 func (s *pwState) clone() *pwState {
 	t := *s
 	t.p = s.p.clone()
+	t.frame = s.frame.cloneChain()
 	t.decided = make(map[ssa.Value]bool, len(s.decided))
 	for k, v := range s.decided {
 		t.decided[k] = v
@@ -437,7 +548,7 @@ func (pw *pathWalker) walk(fn *ssa.Function) {
 		return
 	}
 	root := &pwFrame{fn: fn}
-	st := &pwState{frame: root, block: fn.Blocks[0], p: &pwPath{seed: pw.seed, loadHook: pw.loadHook, unknown: map[string]bool{}, consts: map[ssa.Value]constant.Value{}, alias: map[ssa.Value]ssa.Value{}, tuples: map[ssa.Value][]ssa.Value{}, mem: map[string]ssa.Value{}, stores: map[string]ssa.Value{}},
+	st := &pwState{frame: root, block: fn.Blocks[0], p: &pwPath{seed: pw.seed, loadHook: pw.loadHook, loadAt: map[ssa.Value]int{}, unknown: map[string]bool{}, consts: map[ssa.Value]constant.Value{}, alias: map[ssa.Value]ssa.Value{}, tuples: map[ssa.Value][]ssa.Value{}, mem: map[string]ssa.Value{}, stores: map[string]ssa.Value{}},
 		decided: map[ssa.Value]bool{}, arrived: map[*ssa.BasicBlock]int{}, visits: map[*ssa.BasicBlock]int{}, inlined: map[*ssa.Function]bool{fn: true}}
 	// states are independent once forked: explore them on all cores; the result is put into a
 	// canonical order afterwards so that reports do not depend on scheduling
@@ -586,7 +697,20 @@ func (pw *pathWalker) run(s *pwState) []*pwState {
 					break
 				}
 				if pi >= 0 && pi < len(phi.Edges) {
-					ups = append(ups, upd{phi, s.p.resolve(phi.Edges[pi])})
+					e := phi.Edges[pi]
+					key := phi
+					if s.frame.sub != nil {
+						if n, ok := s.frame.sub[e]; ok {
+							e = n
+						}
+						// the activation's copy of the phi (made at the first arrival)
+						if c, ok := s.frame.sub[phi].(*ssa.Phi); ok {
+							key = c
+						} else {
+							key = copyInstr(phi, s.frame.sub).(*ssa.Phi)
+						}
+					}
+					ups = append(ups, upd{key, s.p.resolve(e)})
 				}
 			}
 			for _, u := range ups {
@@ -597,6 +721,13 @@ func (pw *pathWalker) run(s *pwState) []*pwState {
 		for s.idx < len(b.Instrs) {
 			ins := b.Instrs[s.idx]
 			s.idx++
+			if s.frame.sub != nil {
+				switch ins.(type) {
+				case *ssa.Phi, *ssa.DebugRef:
+				default:
+					ins = copyInstr(ins, s.frame.sub)
+				}
+			}
 			if v, isVal := ins.(ssa.Value); isVal {
 				if _, isPhi := ins.(*ssa.Phi); !isPhi {
 					// the instruction is (re)computed now: forget what an earlier execution left behind
@@ -617,30 +748,28 @@ func (pw *pathWalker) run(s *pwState) []*pwState {
 					}
 				}
 				if callee != nil && len(callee.Blocks) > 0 && s.frame.depth < pw.maxDepth && !onStack && pw.inline != nil && pw.inline(s.frame.fn, callee) && len(callee.Params) == len(x.Call.Args) {
+					nf := &pwFrame{fn: callee, call: x, parent: s.frame, retBlock: b, retIdx: s.idx, depth: s.frame.depth + 1}
+					bind := s.p.alias
 					if s.inlined[callee] {
-						// a second activation of the same function: its values are computed afresh
+						// a second activation of the same function on this path: it works on private copies
 						for _, cb := range callee.Blocks {
 							delete(s.visits, cb)
 							delete(s.arrived, cb)
-							for _, ci := range cb.Instrs {
-								if v, ok := ci.(ssa.Value); ok {
-									delete(s.decided, v)
-									delete(s.p.consts, v)
-								}
-							}
 						}
+						nf.sub = map[ssa.Value]ssa.Value{}
+						bind = nf.sub
 					}
 					for i, prm := range callee.Params {
-						s.p.alias[prm] = s.p.resolve(x.Call.Args[i])
+						bind[prm] = s.p.resolve(x.Call.Args[i])
 					}
 					// a closure: its free variables are the cells bound where it was made
 					if mc, ok := s.p.resolve(x.Call.Value).(*ssa.MakeClosure); ok && len(mc.Bindings) == len(callee.FreeVars) {
 						for i, fv := range callee.FreeVars {
-							s.p.alias[fv] = s.p.resolve(mc.Bindings[i])
+							bind[fv] = s.p.resolve(mc.Bindings[i])
 						}
 					}
 					s.inlined[callee] = true
-					s.frame = &pwFrame{fn: callee, call: x, parent: s.frame, retBlock: b, retIdx: s.idx, depth: s.frame.depth + 1}
+					s.frame = nf
 					s.block, s.pred, s.idx = callee.Blocks[0], nil, 0
 					goto nextBlock
 				}
@@ -697,6 +826,7 @@ func (pw *pathWalker) run(s *pwState) []*pwState {
 				s.p.evDecided = append(s.p.evDecided, len(s.p.decisions))
 			case *ssa.UnOp:
 				if x.Op == token.MUL {
+					s.p.loadAt[x] = len(s.p.events)
 					hit := false
 					if k := s.p.addrKey(x.X); k != "" {
 						if v, ok := s.p.mem[k]; ok {
